@@ -61,3 +61,10 @@ Theorem C09_delegated_pause_partial :
     exists cur, phase_obj_of sw1 s ph = Some cur /\ op_paused cur = lifecycle_eqb (os_life s) LPaused.
 Proof. exact paused_carried_step. Qed.
 Print Assumptions C09_delegated_pause_partial.
+
+(** The controller-level monitor m09 (coq/corr/SetMonitors.v: a paused ObjectSet sends no member request and the
+    members are unchanged) accepts every pass of the model. *)
+From PKOCorr Require Import SetCorr SetMonitors SetMonSound.
+Theorem C09_set_monitor_sound : forall c : scase, m09 (set_obs_s c (SetCorr.model_run c)) = true.
+Proof. exact m09_sound. Qed.
+Print Assumptions C09_set_monitor_sound.
